@@ -67,18 +67,16 @@ Definition modelled_overrides : list (cls * string) :=
     (CKronAddedDiag, "evaluate_kernel"); (CAddedDiag, "evaluate_kernel"); (CLowRankRootAddedDiag, "evaluate_kernel");
     (CMul, "representation"); (CMul, "representation_tree");
     (CCat, "to"); (CCat, "device"); (CInterpolated, "to"); (CMasked, "to");
-    (CPermutation, "to"); (CPermutation, "dtype"); (CTransposePermutation, "type"); (CTransposePermutation, "dtype");
+    (CPermutation, "to"); (CPermutation, "type"); (CPermutation, "dtype");
+    (CTransposePermutation, "to"); (CTransposePermutation, "type"); (CTransposePermutation, "dtype");
     (CTransposePermutation, "device") ].
-(* the overrides added by the repairs of the pinned tree's findings - Zero.to / Zero.type / Permutation.to - are now
-   transcribed by the model.  Tolerated without being modelled yet: the two overrides that the proposed repair of the
-   remaining permutation findings adds (proposed_fixes/C14-perm-nominal-dtype: the nominal dtype becomes a constructor
-   keyword; Permutation.type and TransposePermutation.to rebuild with it) *)
-Definition repair_overrides : list (cls * string) := [ (CPermutation, "type"); (CTransposePermutation, "to") ].
+(* every override is transcribed by the model: nothing is tolerated without being modelled *)
+Definition repair_overrides : list (cls * string) := [].
 (* the overrides Model.meth_call / dtype_of rely on: they must still be there *)
 Definition required_overrides : list (cls * string) :=
   [ (CIdentity, "to"); (CIdentity, "type"); (CIdentity, "dtype"); (CZero, "to"); (CZero, "type"); (CZero, "dtype");
-    (CCat, "to"); (CInterpolated, "to"); (CMasked, "to"); (CPermutation, "to"); (CPermutation, "dtype");
-    (CTransposePermutation, "type"); (CTransposePermutation, "dtype") ].
+    (CCat, "to"); (CInterpolated, "to"); (CMasked, "to"); (CPermutation, "to"); (CPermutation, "type"); (CPermutation, "dtype");
+    (CTransposePermutation, "to"); (CTransposePermutation, "type"); (CTransposePermutation, "dtype") ].
 
 Definition cs_eqb (a b : cls * string) : bool := cls_eqb (fst a) (fst b) && String.eqb (snd a) (snd b).
 Definition cs_mem (p : cls * string) (l : list (cls * string)) : bool := existsb (cs_eqb p) l.
@@ -111,9 +109,8 @@ Definition shape := (bool * bool * bool)%type.
 Definition shape_plain (s : shape) : bool := match s with (false, false, false) => true | _ => false end.
 Definition shape_eqb (a b : shape) : bool :=
   match a, b with (a1, a2, a3), (b1, b2, b3) => Bool.eqb a1 b1 && Bool.eqb a2 b2 && Bool.eqb a3 b3 end.
-(* TransposePermutationLinearOperator.type:  self._dtype = dtype; return self   (known finding C14-transperm-type-in-place) *)
-Definition documented_shapes : list (string * string * shape) :=
-  [ ("TransposePermutationLinearOperator", "type", (true, false, true)) ].
+(* (TransposePermutationLinearOperator.type - self._dtype = dtype; return self - has been repaired: no exception is left) *)
+Definition documented_shapes : list (string * string * shape) := [].
 Definition row_eqb (a b : string * string * shape) : bool :=
   String.eqb (fst (fst a)) (fst (fst b)) && String.eqb (snd (fst a)) (snd (fst b)) && shape_eqb (snd a) (snd b).
 Definition shape_listed (r : string * string * shape) : bool := shape_plain (snd r) || existsb (row_eqb r) documented_shapes.
